@@ -3,6 +3,7 @@ CONSTANTS
   MaxR = 1
   MaxD = 1
   DefKinds <- MCKindsQ
+  DDefKinds <- MCDKinds
   MaxSpell = 1
 INIT Init
 NEXT Stop
